@@ -137,7 +137,7 @@ func (rep *Report) Finish() int {
 		total++
 	}
 	// extra (bounded / frame) checks
-	var bounded []map[string]interface{}
+	bounded := []map[string]interface{}{}
 	if rep.Extra != nil {
 		for _, ev := range rep.Extra.Violations {
 			violations = append(violations, ev)
@@ -147,7 +147,7 @@ func (rep *Report) Finish() int {
 	// known findings
 	kf := LoadKnownFindings(filepath.Join(rep.Verif, "known_findings.txt"))
 	var remaining []*Violation
-	var knownSeen []string
+	knownSeen := []string{}
 	for _, v := range violations {
 		if f := kf.Match(rep.Prop, v); f != nil {
 			line := fmt.Sprintf("KNOWN-FINDING: property=%s %s %s", rep.Prop, f.ID, f.Desc)
@@ -174,7 +174,11 @@ func (rep *Report) Finish() int {
 		"govc VC generator (validated by the must-fail self-test corpus)",
 		"go/ssa (x/tools v0.29.0) represents the compiled program; GOARCH=amd64",
 	}
-	assumptions := sortedKeys(trusted)
+	assumptions := []string{
+		"integers are mathematical with an overflow obligation (kind O) on every arithmetic instruction; functions marked nooverflow prove no-panic and error behaviour over mathematical integers only",
+		"termination is not verified",
+	}
+	assumptions = append(assumptions, sortedKeys(trusted)...)
 	if idealCount > 0 {
 		assumptions = append(assumptions, fmt.Sprintf("%d obligations proved with float64 arithmetic treated as real arithmetic (float ideal)", idealCount))
 	}
